@@ -186,6 +186,8 @@ pub struct DevInner {
     /// the injected failure is a transient "interrupted" error
     pub fault_intr: bool,
     pub fault_hit: Option<DevCall>,
+    /// the fault that was hit was a transient "interrupted" error
+    pub fault_hit_intr: bool,
     pub next_err_id: u64,
     pub budget: u64,
     pub budget_tripped: bool,
@@ -226,6 +228,7 @@ impl SimDevice {
             fault_flush: false,
             fault_intr: false,
             fault_hit: None,
+            fault_hit_intr: false,
             next_err_id: 1,
             budget: u64::MAX,
             budget_tripped: false,
@@ -242,6 +245,7 @@ impl SimDevice {
         d.log.clear();
         d.calls = 0;
         d.fault_hit = None;
+        d.fault_hit_intr = false;
         d.beyond.clear();
     }
 }
@@ -268,6 +272,7 @@ impl DevInner {
             let id = self.next_err_id;
             self.next_err_id += 1;
             self.fault_hit = Some(call.clone());
+            self.fault_hit_intr = self.fault_intr;
             self.log.push(call);
             return Err(DevError { kind: if self.fault_intr { DevErrKind::Interrupted } else { DevErrKind::Injected }, id });
         }
@@ -277,6 +282,12 @@ impl DevInner {
                 self.next_err_id += 1;
                 if self.fault_hit.is_none() {
                     self.fault_hit = Some(call.clone());
+                }
+                if self.fault_intr && !self.fault_flush {
+                    self.fault_hit_intr = true;
+                    // a transient "interrupted" error (EINTR-like) on this one call: callers that loop (write_all, read_exact) repeat it
+                    self.log.push(call);
+                    return Err(DevError { kind: DevErrKind::Interrupted, id });
                 }
                 self.log.push(call);
                 return Err(DevError { kind: DevErrKind::Injected, id });
